@@ -25,7 +25,11 @@ def describe(ck):
 def _fmt_calls(F, token):
     """(call, spec index, arg node) for snprintf/fprintf calls whose format contains token; arg = value printed right after token"""
     out = []
-    for c in F.body.calls("snprintf", "fprintf", "sprintf", "printf"):
+    from .c06 import _printf_like
+    for c in F.body.calls():
+        lit = next((a for a in c.args if a.strip(casts=True).k == "StringLiteral" and "%" in a.strip(casts=True).d.get("s", "")), None)
+        if lit is None or not (c.callee in ("snprintf", "fprintf", "sprintf", "printf") or _printf_like(F.prog, c, lit)):
+            continue
         fi = None
         for i, a in enumerate(c.args):
             a0 = a.strip(casts=True)
@@ -89,7 +93,7 @@ def r15(ck, prog):
                 ck.violation("R15a", "R15a/write_msa_msf/%s" % token.strip(":"), where,
                              "the MSF header declares %s (= %s) after '%s' but the rows are emitted up to %s: declared and "
                              "actual alignment length differ" % (arg.text(), sorted(src), token, sorted(bsrc)), prog.config)
-    ck.floor("R15a", n, 3, "header length fields")
+    ck.floor("R15a", n, 2, "header length fields")
     # --- R15b
     nchk = 0
     for c in F.body.calls("GCGchecksum"):
@@ -144,7 +148,7 @@ def r15(ck, prog):
             if not (ok_len and ok_row and ok_all):
                 ck.violation("R15b", "R15b/GCGMultchecksum/shape", where,
                              "GCGMultchecksum does not sum the row checksums of all numseq rows over the length it is given", prog.config)
-    ck.floor("R15b", nchk, 3, "checksum calls")
+    ck.floor("R15b", nchk, 2, "checksum calls")
     # --- R15c: evaluate every banner / Type: choice in the two states kalign_run can leave behind
     from .c05 import used_alphabets
     from ..consteval import alphabet_tables
@@ -248,8 +252,16 @@ def r15h(ck, prog):
     retrying with the old size cuts the line at the same place again"""
     from ..affine import lin
     n = 0
+    fns = []
     for name in ("write_msa_msf", "write_msa_clu"):
-        F = prog.fn(name)
+        W = prog.fn(name)
+        fns.append(W)
+        for c in W.body.calls():
+            H = prog.functions.get(c.callee) if c.callee else None
+            if H is not None and H.body is not None and H.static and H.file == W.file and H not in fns:
+                fns.append(H)
+    for F in fns:
+        name = F.name
         for ifs in F.body.find("IfStmt"):
             c = ifs.child("cond").strip(casts=True)
             if not (c.k == "BinaryOperator" and c.d["op"] in (">=", ">")):
@@ -258,10 +270,10 @@ def r15h(ck, prog):
             if w.k != "DeclRefExpr" or w.ty != "int":
                 continue
             firsts = [d for d, _ in local_defs(F, w.d["did"]) if d is not None and d.strip(casts=True).k == "CallExpr"
-                      and d.strip(casts=True).callee == "snprintf"]
+                      and d.strip(casts=True).callee in ("snprintf", "vsnprintf")]
             if not firsts:
                 continue
-            retries = [x for x in ifs.child("then").find("CallExpr") if x.callee == "snprintf"]
+            retries = [x for x in ifs.child("then").find("CallExpr") if x.callee in ("snprintf", "vsnprintf")]
             if not retries:
                 continue
             for r in retries:
@@ -281,7 +293,7 @@ def r15h(ck, prog):
                                  "loses its tail (check value, type, '..')" % (name, c.text(), r.args[1].text()), prog.config)
                 else:
                     raise AnalysisBroken("R15h: size %s of the retried snprintf at %s is not comparable with %s" % (r.args[1].text(), r.loc, w.text()))
-    ck.floor("R15h", n, 2, "retried header lines")
+    ck.floor("R15h", n, 1, "retried header lines")
 
 
 def r15i(ck, prog):
@@ -291,9 +303,10 @@ def r15i(ck, prog):
     n = 0
     for name in ("write_msa_msf", "write_msa_clu"):
         F = prog.fn(name)
-        for c in F.body.calls("snprintf", "fprintf", "sprintf"):
+        from .c06 import _printf_like
+        for c in F.body.calls():
             fi = next((i for i, a in enumerate(c.args) if a.strip(casts=True).k == "StringLiteral" and "%" in a.strip(casts=True).d.get("s", "")), None)
-            if fi is None:
+            if fi is None or not (c.callee in ("snprintf", "fprintf", "sprintf") or _printf_like(prog, c, c.args[fi])):
                 continue
             fmt = c.args[fi].strip(casts=True).d["s"]
             argi = 0
@@ -318,7 +331,7 @@ def r15i(ck, prog):
                                  "%s prints the name with '%s': a width pads short names but does not cut long ones, so a name longer than "
                                  "the column runs into the residues and the row no longer has a name field and at most 60 columns" % (name, m.group(0)),
                                  prog.config)
-    ck.floor("R15i", n, 2, "name conversions in the block writers")
+    ck.floor("R15i", n, 1, "name conversions in the block writers")
 
 
 def run(ck, progs):
